@@ -553,7 +553,7 @@ RepairOK(pre, a, r, post) ==
   /\ Chk("C08.policies unchanged", post.cfg = pre.cfg)
   /\ Chk("C19.repair exceeded its flip budget",
          r.heuristic \/ r.flips <= FlipBudget(MaxOf(Len(pre.cells), Len(post.cells)), pre.D, a.profile))
-  /\ ValidStack(post, post.cfg.g)
+  /\ StackOrBootstrap(post, post.cfg.g)
   /\ ChkNSI("C08.empty circumspheres", post)
   /\ Chk("C08.general position => the Delaunay triangulation",
          Len(post.verts) <= a.gpmax /\ NoStrictlyInside(post) /\ EmbeddedQ(pre) /\ GeneralPosition(post)
